@@ -1,0 +1,52 @@
+//go:build verif
+
+/*
+ * Licensed to the Apache Software Foundation (ASF) under one or more
+ * contributor license agreements.  See the NOTICE file distributed with
+ * this work for additional information regarding copyright ownership.
+ * The ASF licenses this file to You under the Apache License, Version 2.0
+ * (the "License"); you may not use this file except in compliance with
+ * the License.  You may obtain a copy of the License at
+ *
+ *     http://www.apache.org/licenses/LICENSE-2.0
+ *
+ * Unless required by applicable law or agreed to in writing, software
+ * distributed under the License is distributed on an "AS IS" BASIS,
+ * WITHOUT WARRANTIES OR CONDITIONS OF ANY KIND, either express or implied.
+ * See the License for the specific language governing permissions and
+ * limitations under the License.
+ */
+
+package sql
+
+import (
+	"database/sql"
+	"database/sql/driver"
+
+	"seata.apache.org/seata-go/pkg/datasource/sql/types"
+	"seata.apache.org/seata-go/pkg/protocol/branch"
+)
+
+// RegisterVerifDrivers registers the AT and XA proxy drivers under the given
+// names over an arbitrary target driver (the shipped registration hard-wires
+// the MySQL network driver). Verification builds only.
+func RegisterVerifDrivers(at, xa string, target driver.Driver) {
+	if at != "" {
+		sql.Register(at, &seataATDriver{
+			seataDriver: &seataDriver{
+				branchType: branch.BranchTypeAT,
+				transType:  types.ATMode,
+				target:     target,
+			},
+		})
+	}
+	if xa != "" {
+		sql.Register(xa, &seataXADriver{
+			seataDriver: &seataDriver{
+				branchType: branch.BranchTypeXA,
+				transType:  types.XAMode,
+				target:     target,
+			},
+		})
+	}
+}
